@@ -1,57 +1,92 @@
 (* C07 — Shifting an ID is modular translation on the grid.
-   Only statements, `exact` proofs and Print Assumptions live here. Models and proofs: theories/Shift.v. *)
+   Only statements, `exact` proofs and Print Assumptions live here. Models and proofs: theories/Shift.v (integer model, shared),
+   theories/ShiftF.v (the float layer), theories/DC07.v (run-time checkers).
+   All theorems are statements about the Coq models.  Two models of operated.GetShiftingSpatialID exist:
+     shift_api    — integers only; the wrap is the closed form `s mod 2^h` (what the other properties build on);
+     shift_api_f  — the executable twin that goes through the same binary64 operations as the Go code (math.Pow(2,h), float64(int64),
+                    math.Mod, int64(float64)) and the same repeated-addition loop; THIS one is run side by side with the Go code.
+   C07_float_layer_exact ties the two on the property's quantifier; C07_float_layer_refuted shows where the tie ends (x + dx > 2^53). *)
 From Coq Require Import ZArith String List Lia.
-From SID Require Import Base Str Ids Shift.
+From SID Require Import Base Str Ids Shift ShiftF DC07.
+Import ListNotations.
 Open Scope Z_scope.
 
-(* The exported function, applied to the printed form of any valid ID, returns the printed ID whose x and y are advanced
-   modulo 2^h and whose vertical index is advanced by dv; zooms are kept. *)
+(* (1) The integer model, applied to the printed form of any valid ID, returns the printed ID whose x and y are advanced modulo 2^h and
+   whose vertical index is advanced by dv; zooms are kept.  (dx, dy, dv : any integers — the model has no int64.) *)
 Theorem C07_shift_is_modular_translation : forall i dx dy dv, valid i ->
   shift_api (print_eid i) dx dy dv =
   print_eid {| eh := eh i; ex := (ex i + dx) mod 2 ^ eh i; ey := (ey i + dy) mod 2 ^ eh i; ev := ev i; ef := ef i + dv |}.
 Proof. exact shift_api_spec. Qed.
 Print Assumptions C07_shift_is_modular_translation.
 
-(* the result is always inside the horizontal index range; zooms unchanged; vertical index unbounded *)
-Theorem C07_result_in_range : forall i dx dy dv, 0 <= eh i ->
-  0 <= ex (shift_spec i dx dy dv) < 2 ^ eh i /\ 0 <= ey (shift_spec i dx dy dv) < 2 ^ eh i /\
-  eh (shift_spec i dx dy dv) = eh i /\ ev (shift_spec i dx dy dv) = ev i /\ ef (shift_spec i dx dy dv) = ef i + dv.
-Proof. exact shift_in_range. Qed.
-Print Assumptions C07_result_in_range.
+(* (2) The float layer is exact on the quantifier: for a valid ID and |dx|, |dy| <= 4 * 2^h the twin that computes through
+   Pow / float64() / the loop / Mod / int64() is never refused (fuel) and returns the same string as the modular specification. *)
+Theorem C07_float_layer_exact : forall i dx dy dv, valid i -> Z.abs dx <= 4 * 2 ^ eh i -> Z.abs dy <= 4 * 2 ^ eh i ->
+  shift_api_f (print_eid i) dx dy dv = Some (print_eid (shift_spec i dx dy dv)).
+Proof. exact shift_api_f_quantifier. Qed.
+Print Assumptions C07_float_layer_exact.
+(* the same with the weakest bounds proved: -4094 * 2^h <= x + dx <= 2^53 (likewise y) *)
+Theorem C07_float_layer_exact_wide : forall i dx dy dv, valid i ->
+  - 4094 * 2 ^ eh i <= ex i + dx <= 2 ^ 53 -> - 4094 * 2 ^ eh i <= ey i + dy <= 2 ^ 53 ->
+  shift_api_f (print_eid i) dx dy dv = Some (print_eid (shift_spec i dx dy dv)).
+Proof. exact shift_api_f_exact. Qed.
+Print Assumptions C07_float_layer_exact_wide.
+(* the wrap itself, for any sufficient fuel of the loop *)
+Theorem C07_float_wrap_exact : forall fuel i d h, 0 <= h <= 52 -> i + d <= 2 ^ 53 ->
+  addloop fuel (i + d) (2 ^ h) <> None -> wrap_f fuel i d h = Some ((i + d) mod 2 ^ h).
+Proof. exact wrap_f_exact. Qed.
+Print Assumptions C07_float_wrap_exact.
+(* (3) REFUTED beyond 2^53: float64(x + dx) rounds; zoom 1, x = 0, dx = 2^53 + 1 gives x = 0 (Go: "1/0/0/0/0"), exact is 1.
+   Outside the property's quantifier (|dx| <= 4 * 2^h <= 2^37). *)
+Theorem C07_float_layer_refuted : exists fuel i d h, 0 <= h <= 35 /\ 0 <= i < 2 ^ h /\ 2 ^ 53 < i + d /\
+  wrap_f fuel i d h = Some 0 /\ (i + d) mod 2 ^ h = 1.
+Proof. exact wrap_f_refuted. Qed.
+Print Assumptions C07_float_layer_refuted.
 
+(* (4) the returned string is again an ID with the same zooms, inside the horizontal range, vertical index advanced by dv
+   (vshift_ok: the new vertical index is an int64 — the property's own restriction) *)
+Theorem C07_result_is_an_id_in_range : forall i dx dy dv, valid i -> vshift_ok i dv ->
+  exists j, parse_eid (shift_api (print_eid i) dx dy dv) = Some j /\ eh j = eh i /\ ev j = ev i /\
+            0 <= ex j < 2 ^ eh i /\ 0 <= ey j < 2 ^ eh i /\ ef j = ef i + dv.
+Proof. exact shift_api_result. Qed.
+Print Assumptions C07_result_is_an_id_in_range.
+
+(* (5) every accepted spelling of a valid ID ("+3/07/-0/+1/-01") is shifted like its canonical form *)
+Theorem C07_spelling_independent : forall s i dx dy dv, parse_eid s = Some i -> valid i ->
+  shift_api s dx dy dv = print_eid (shift_spec i dx dy dv).
+Proof. exact shift_api_spelling. Qed.
+Print Assumptions C07_spelling_independent.
+
+(* (6) laws between calls, on strings *)
 Theorem C07_zero_shift_is_identity : forall i, valid i -> shift_api (print_eid i) 0 0 0 = print_eid i.
 Proof. exact shift_api_zero. Qed.
 Print Assumptions C07_zero_shift_is_identity.
-
 Theorem C07_shifts_compose : forall i a b c a' b' c', valid i -> vshift_ok i c ->
   shift_api (shift_api (print_eid i) a b c) a' b' c' = shift_api (print_eid i) (a + a') (b + b') (c + c').
 Proof. exact shift_api_compose. Qed.
 Print Assumptions C07_shifts_compose.
-
 Theorem C07_shift_back_restores : forall i a b c, valid i -> vshift_ok i c ->
   shift_api (shift_api (print_eid i) a b c) (- a) (- b) (- c) = print_eid i.
 Proof. exact shift_api_inverse. Qed.
 Print Assumptions C07_shift_back_restores.
 
-(* the wrap loop of the code (fuel-bounded model) terminates for every input and computes the closed form that is executed *)
-Theorem C07_wrap_loop_is_closed_form : forall fuel i d w t, 0 < w -> wrap_loop fuel i d w = Some t -> t = wrap i d w.
-Proof. exact wrap_loop_closed. Qed.
-Print Assumptions C07_wrap_loop_is_closed_form.
-Theorem C07_wrap_loop_terminates : forall i d w, 0 < w -> exists fuel t, wrap_loop fuel i d w = Some t.
-Proof. exact wrap_loop_terminates. Qed.
-Print Assumptions C07_wrap_loop_terminates.
-
-(* a malformed ID gives the empty string (the shift helper has no error result) *)
-Theorem C07_malformed_gives_empty : forall s dx dy dv, parse_eid s = None -> shift_api s dx dy dv = EmptyString.
-Proof. exact shift_api_malformed. Qed.
-Print Assumptions C07_malformed_gives_empty.
-
-(* the run-time checker applied to the implementation's output decides exactly the specification *)
+(* (7) the run-time checkers applied to the implementation's output decide exactly the specification *)
 Theorem C07_checker_sound : forall i dx dy dv obs, valid i ->
   check_shift (print_eid i) dx dy dv obs = true <-> obs = print_eid (shift_spec i dx dy dv).
 Proof. exact check_shift_sound. Qed.
 Print Assumptions C07_checker_sound.
+Theorem C07_law_checker_sound : forall i a1 a2 a3 b1 b2 b3 o, valid i -> check_shift_laws (print_eid i) a1 a2 a3 b1 b2 b3 o = true ->
+  o = [print_eid (shift_spec i a1 a2 a3); print_eid (shift_spec i (a1 + b1) (a2 + b2) (a3 + b3));
+       print_eid (shift_spec i (a1 + b1) (a2 + b2) (a3 + b3)); print_eid i; print_eid i].
+Proof. exact check_shift_laws_sound. Qed.
+Print Assumptions C07_law_checker_sound.
 
-(* non-vacuity: a concrete valid ID at the grid edge wraps *)
-Example C07_nonvacuous : valid (mk 3 7 0 4 (-16)) /\ shift_api "3/7/0/4/-16" 2 (-1) 5 = "3/1/7/4/-11"%string.
-Proof. split; [unfold valid; cbn; lia | vm_compute; reflexivity]. Qed.
+(* non-vacuity: a concrete valid ID at the grid edge wraps (both models), a multi-lap negative shift goes through the loop,
+   compose / inverse hypotheses are satisfiable at the int64 boundary *)
+Example C07_nonvacuous : valid (mk 3 7 0 4 (-16)) /\ shift_api "3/7/0/4/-16" 2 (-1) 5 = "3/1/7/4/-11"%string /\
+  shift_api_f "3/7/0/4/-16" 2 (-1) 5 = Some "3/1/7/4/-11"%string /\
+  shift_api_f "3/7/0/4/-16" (-32) 31 0 = Some "3/7/7/4/-16"%string.
+Proof. split; [unfold valid; cbn; lia | vm_compute; repeat split; reflexivity]. Qed.
+Example C07_nonvacuous_laws : valid (mk 0 0 0 35 (-34359738368)) /\ vshift_ok (mk 0 0 0 35 (-34359738368)) (2 ^ 63 - 1) /\
+  shift_api (shift_api "0/0/0/35/-34359738368" 5 (-5) (2 ^ 63 - 1)) (-5) 5 (- (2 ^ 63 - 1)) = "0/0/0/35/-34359738368"%string.
+Proof. split; [unfold valid; cbn; lia|]. split; [unfold vshift_ok; cbn; lia | vm_compute; reflexivity]. Qed.
